@@ -2,6 +2,7 @@ package main
 
 import (
 	"bytes"
+	"crypto/cipher"
 	"fmt"
 	"strconv"
 	"strings"
@@ -25,7 +26,7 @@ func evalSm4hist(args []string) string {
 	if !ok {
 		return "bad-op"
 	}
-	c, err := sm4.NewCipher(key)
+	c, err := newCipherReusedBuffer(key)
 	if err != nil {
 		return "err"
 	}
@@ -82,7 +83,7 @@ func evalSm4blk(args []string) string {
 	if !ok1 || !ok2 {
 		return "bad-op"
 	}
-	c, err := sm4.NewCipher(key)
+	c, err := newCipherReusedBuffer(key)
 	if err != nil {
 		return "err"
 	}
@@ -153,4 +154,25 @@ func genC05(r *rng, tier string, emit func(string)) {
 		}
 		emit("sm4hist " + hx(key) + " " + join(ops))
 	}
+}
+
+// newCipherReusedBuffer builds the cipher for key the way a caller with one key buffer does: the buffer held
+// another key a moment ago (for which a cipher was built) and is wiped afterwards. NewCipher must depend on the
+// bytes it is given at the time of the call only.
+func newCipherReusedBuffer(key []byte) (cipher.Block, error) {
+	buf := make([]byte, len(key))
+	if len(key) == 16 {
+		for i := range buf {
+			buf[i] = byte(0x3c + i)
+		}
+		if _, err := sm4.NewCipher(buf); err != nil {
+			return nil, err
+		}
+	}
+	copy(buf, key)
+	c, err := sm4.NewCipher(buf)
+	for i := range buf {
+		buf[i] = 0
+	}
+	return c, err
 }
